@@ -13,7 +13,7 @@ from ckl.lexer import Lexer, SourcePos, Token
 
 import ckl.values as V
 from harness import tokens as T
-from harness.common import guard, raise_site
+from harness.common import guard, raise_site, b_or
 
 FUNCTIONS = ["ckl.lexer.Lexer.scan", "ckl.lexer.Lexer.(next|peek|match*|peekn)", "ckl.parser.* (all parse functions)",
              "ckl.nodes.*.__init__", "ckl.values.Value*.__init__ (literal construction)"]
@@ -82,7 +82,16 @@ def cells(tier, seed):
                     out.append({"k": "window", "seed": si, "pos": pos, "d": d, "w": w, "trunc": False})
             for w in range(0, b["window_insert"] + 1):
                 out.append({"k": "window", "seed": si, "pos": pos, "d": 0, "w": w, "trunc": True})
+    # every node kind inside the positions whose syntax-error message renders the parsed node
+    for si in range(len(T.SEEDS)):
+        for wi in range(len(WRAPPERS)):
+            out.append({"k": "wrap", "seed": si, "w": wi})
     return out
+
+
+WRAPPERS = ["[(%s)] = 1", "[(%s) for q in qs] = 1", "[1 for q in (%s)] = 1", "[q for q in qs if (%s)] = 1",
+            "[%s] = 1", "[a, %s] = l", "[<<(%s)>>] = 1", "[<<<(%s) => 1>>>] = 1", "[(fn(a) %s)] = 1",
+            "[(if %s then 1)] = 1", "[do %s end] = 1", "[(%s)[0]] = 1", "[(%s)->m] = 1", "[f(%s)] = 1"]
 
 
 def classify(ctx, out, key):
@@ -158,4 +167,11 @@ def run(ctx, cell):
         lexer.tokens = new
         out = parse_tokens(ctx, lexer)
         return classify(ctx, out, "C01:window")
+    if k == "wrap":
+        text = WRAPPERS[cell["w"]] % T.SEEDS[cell["seed"]]
+        # one symbolic token spelling in front keeps the cell a query over texts rather than a single run
+        s = ctx.str("c", 1)
+        ctx.assume(b_or(s[0] == " ", s[0] == "\n"))
+        out = guard(P.parse_script, s + text, "t")
+        return classify(ctx, out, "C01:wrap")
     raise AssertionError(k)
